@@ -343,3 +343,74 @@ Proof.
            end;
     try reflexivity; apply f_equal; apply f_equal2; lra.
 Qed.
+
+(* ---------- reference values: files sharing one reference temperature ---------- *)
+From PG Require Import Thermo.RawData_proofs.
+Section Refs.
+Variables splint quadS : R -> R -> R.
+Variable isclose : R -> R -> bool.
+Hypothesis splint_refl : forall a, splint a a = 0.
+Hypothesis quadS_refl : forall a, quadS a a = 0.
+Notation updR := (corr_update (K:=Rops) splint quadS lnrR isclose).
+
+(* what the merged reference enthalpy is: the other file's value where it gives one (after the tolerance check against the
+   value already there), the value already there otherwise.  Positive temperatures: every constructed correlation starts above 0 K. *)
+Theorem update_H_same_Tref self other new :
+  updR self other false = (new, None) -> i_Tref other = i_Tref self ->
+  (forall pts rg H S T c, construct (K:=Rops) pts rg H S T = Ok c -> 0 < r_lo c) ->
+  i_H new = match i_H other with Some h => Some h | None => i_H self end
+  /\ (forall h h0, i_H other = Some h -> i_H self = Some h0 -> isclose h h0 = true).
+Proof.
+  intros U ET Hpos. unfold corr_update in U.
+  destruct (match i_tab other with [] => _ | _ => _ end) as [tab|e1]; [|discriminate].
+  destruct (i_H other) as [h|] eqn:EH.
+  - (* other gives H *)
+    cbn [isSome orb] in U.
+    set (test := Build_inc (K:=Rops) (Some h) (i_S other) tab (i_Tref other) (range_union (K:=Rops) (i_range self) (i_range other))) in *.
+    destruct (inc_setup test) as [r|e2] eqn:ES; [|discriminate].
+    assert (NH : ev_val (inc_h (K:=Rops) splint test r (i_Tref self)) = Ok h).
+    { unfold inc_h. cbn [i_H test]. rewrite <- ET.
+      destruct r as [c|].
+      - unfold inc_setup in ES. cbn [i_range i_tab i_H i_S i_Tref test dflt] in ES.
+        assert (C : construct (K:=Rops) tab (range_union (K:=Rops) (i_range self) (i_range other)) h (dflt (K:=Rops) (i_S other)) (i_Tref other) = Ok c).
+        { destruct (range_union (K:=Rops) (i_range self) (i_range other)) as [[lo hi]|]; cbn [bind] in ES;
+            [destruct (nltb Rops hi lo); cbn [bind] in ES; [discriminate|]|];
+            (destruct tab; [discriminate|]);
+            match type of ES with match ?x with _ => _ end = _ => destruct x eqn:EC; inversion ES; subst; reflexivity end. }
+        rewrite (h_at_Tref splint splint_refl _ _ _ _ _ _ C (Hpos _ _ _ _ _ _ C)). reflexivity.
+      - cbn [i_Tref test]. unfold neqb, Rops. rewrite Reqb_refl. reflexivity. }
+    assert (X : forall S0r : res (option R),
+              (let refs := bind (bind (ev_val (inc_h (K:=Rops) splint test r (i_Tref self)))
+                                (fun nh => match i_H self with
+                                           | Some h1 => if negb false && negb (isclose nh h1) then Raise ReadOnlyData else Ok (Some nh)
+                                           | None => Ok (Some nh) end))
+                                (fun H => bind S0r (fun S0 => Ok (H, S0))) in refs)
+              = match i_H self with
+                | Some h1 => if isclose h h1 then bind S0r (fun S0 => Ok (Some h, S0)) else Raise ReadOnlyData
+                | None => bind S0r (fun S0 => Ok (Some h, S0))
+                end).
+    { intros S0r. cbv zeta. rewrite NH. cbn [bind negb andb]. destruct (i_H self) as [h1|]; [|reflexivity].
+      destruct (isclose h h1); reflexivity. }
+    cbv zeta in X. rewrite X in U. clear X.
+    destruct (i_H self) as [h0|] eqn:EH0.
+    + destruct (isclose h h0) eqn:EC; [|discriminate].
+      match type of U with context [bind ?x _] => destruct x as [S0|e3]; cbn [bind] in U; [|discriminate] end.
+      match type of U with match ?x with Ok _ => _ | Raise _ => _ end = _ => destruct x; [|discriminate] end.
+      inversion U; subst. cbn [i_H]. split; [reflexivity|].
+      intros h' h0' E1 E2. inversion E1; inversion E2; subst. exact EC.
+    + match type of U with context [bind ?x _] => destruct x as [S0|e3]; cbn [bind] in U; [|discriminate] end.
+      match type of U with match ?x with Ok _ => _ | Raise _ => _ end = _ => destruct x; [|discriminate] end.
+      inversion U; subst. cbn [i_H]. split; [reflexivity|]. intros; discriminate.
+  - (* other gives no H *)
+    destruct (i_S other) as [s|] eqn:ESo.
+    + cbn [isSome orb] in U.
+      match type of U with context [inc_setup ?t] => destruct (inc_setup t) as [r|e2] eqn:ES; [|discriminate] end.
+      cbn [bind] in U.
+      match type of U with context [bind ?x _] => destruct x as [S0|e3]; cbn [bind] in U; [|discriminate] end.
+      match type of U with match ?x with Ok _ => _ | Raise _ => _ end = _ => destruct x; [|discriminate] end.
+      inversion U; subst. cbn [i_H]. split; [reflexivity|]. intros; discriminate.
+    + cbn [isSome orb] in U.
+      match type of U with match ?x with Ok _ => _ | Raise _ => _ end = _ => destruct x; [|discriminate] end.
+      inversion U; subst. cbn [i_H]. split; [reflexivity|]. intros; discriminate.
+Qed.
+End Refs.
